@@ -142,7 +142,11 @@ pub async fn run_suite(seed: u64, cases: usize) -> String {
       if choice < 7 {
         // modulator -> clients
         let n = r.range(1, 5);
-        let pool = ["alice", "bob", "carol", "dave", "zed"];
+        // targets are usernames; a NID of another domain names nobody local, whichever way targets are interpreted
+        // (local-domain NIDs are left out: whether `carol@localhost` means carol is not settled by the property)
+        let pool = [
+          "alice", "bob", "carol", "dave", "zed", "alice", "bob", "carol", "dave", "bob@elsewhere.org", "alice@example.com", "Alice", "bo",
+        ];
         let targets: Vec<String> = (0..n).map(|_| r.pick(&pool).to_string()).collect();
         let id = next_id;
         next_id += 1;
